@@ -47,7 +47,7 @@ AllDevs == {"WhitespaceOnlyTail", "NoSeparatorHeader",
             "BodystructureSizeIncludesHeader"}
 
 \* the two get_raw deviations have one cause and one repair
-RawRepaired == {"WhitespaceOnlyTail", "NoSeparatorHeader"} \subseteq Fixed
+RawRepaired == {"WhitespaceOnlyTail", "NoSeparatorHeader"} \cap Fixed # {}
 
 IsWs(c) == c \in {"CR", "LF", "WS"}      \* _util.whitespace
 
